@@ -205,3 +205,7 @@ macro_rules! impl_convert {
 impl_convert!(UnknownPathSecret, unknown_path_secret);
 impl_convert!(StaleKey, stale_key);
 impl_convert!(ReplayDetected, replay_detected);
+
+#[cfg(all(aws_s2n_quic_verif, any(test, kani)))]
+#[path = "/verif/harness/dc/secret_control.rs"]
+mod verif;
